@@ -215,8 +215,10 @@ def main(argv: List[str]) -> int:
             kinds = [["series", "frame"][i % 2]]
         elif tier == "quick":
             kinds = [["series", "frame", "index", "regex"][i % 4]]
+        elif len(v.get("chain", [])) >= 3:
+            kinds = [["series", "frame", "index", "regex"][i % 4]]
         else:
-            kinds = ["series", "frame", "index", "regex"]
+            kinds = [["series", "frame", "index", "regex"][i % 4], ["series", "frame", "index", "regex"][(i + 2) % 4]]
         jobs += [(i, v, tier, seed, k) for k in kinds]
     ctx = mp.get_context("fork")
     nproc = int(os.environ.get("VERIF_NPROC", "16"))
